@@ -24,7 +24,7 @@ UNITS = {
     "sha2": {"driver": "Sha2", "harness": "ops_sha2", "gens": "sha2",
              "props": {"C01": ["CxVerif.Props.C01.Sha2"], "C02": ["CxVerif.Props.C02.Sha2"]}},
     "mackdf": {"driver": "MacKdf", "harness": "ops_mackdf", "gens": "mackdf",
-               "props": {"C08": ["CxVerif.Props.C08.Hmac"], "C09": ["CxVerif.Props.C09.MacDigest"], "C10": ["CxVerif.Props.C10.Kdf"]}},
+               "props": {"C08": ["CxVerif.Props.C08.Hmac"], "C09": ["CxVerif.Props.C09.MacDigest"], "C10": ["CxVerif.Props.C10.Kdf", "CxVerif.Props.C10.Scrypt"]}},
     "sha3": {"driver": "Sha3", "harness": "ops_sha3", "gens": "sha3",
              "props": {"C01": ["CxVerif.Props.C01.Sha3"], "C02": ["CxVerif.Props.C02.Sha3"]}},
     "stream": {"driver": "Stream", "harness": "ops_stream", "gens": "stream",
